@@ -291,7 +291,7 @@ func (rm *RegistrationManager) parseRegMessage(msg []byte) ([]*DecoyRegistration
 
 	// if either address is not provided (reg came over api / client ip
 	// logging disabled) fill with zeros to avoid nil dereference.
-	if parsed.GetRegistrationAddress() == nil {
+	if len(parsed.GetRegistrationAddress()) == 0 {
 		parsed.RegistrationAddress = make([]byte, 16)
 	}
 	if parsed.GetDecoyAddress() == nil {
@@ -462,6 +462,12 @@ func (rm *RegistrationManager) NewRegistrationC2SWrapper(c2sw *pb.C2SWrapper, in
         }
 
 	clientAddr := net.IP(c2sw.GetRegistrationAddress())
+
+	if l := len(clientAddr); l != 0 && l != net.IPv4len && l != net.IPv6len {
+		// Not an address: it would be announced to the detector as "?0102..", which the
+		// detector rejects, leaving a registration that can never be connected to.
+		return nil, fmt.Errorf("failed because registration address has invalid length %d", l)
+	}
 
 	if reg.PhantomIp.To4() != nil && clientAddr.To4() == nil {
 		// This can happen if the client chooses from a set that contains no
